@@ -52,8 +52,9 @@ def run(ctx):
     c03.maps_rules(dep(ctx, "C12", "C03"), "C03")
     from . import c06
     c06.reader_deps(ctx, "C12")
-    from . import c15
+    from . import c15, c17
     c15.cli_arm_dep(ctx, "C12", ('Cgr',))
+    c17.open_rules(dep(ctx, "C12", "C17"))
     # (x, y) is the chaos-game end point at the requested square size: corner table, centre and constructor of this copy
     mp = c11.ctor_rule(dep(ctx, "C12", "C11"), "C11.C", "composition::oligocgr::OligoCgrComputer::new", ADT)
     if mp is not None:
